@@ -4,7 +4,7 @@ from harness import core, gens
 from harness.core import q, qlist, natlist, zlist, cbool, Case, guarded, ImplError
 
 RULE = ('exhaustive: every non-constant series over {-2..2} up to length 6 (quick) / 8 (thorough) for ptype all, and up to 5 / 7 for max, min and get_n_cyc_array; '
-        'plus random plateau-rich integer series (with offsets, non-zero first sample) up to length 200 / 2000, the same at amplitude scales 2^-40..2^40, two-scale series (integer levels + 2^-30 ripples) and random real-valued series; all compared exactly (indices) ; '
+        'plus random plateau-rich integer series (with offsets, non-zero first sample) up to length 200 / 2000, the same at amplitude scales 2^-40..2^40, two-scale series (integer levels + 2^-30 ripples) random real-valued series, and series whose first sample is 2^55..2^60 times the unit of the later oscillation; get_n_cyc_array also on int16 / int64 ndarrays and lists of Python ints; all compared exactly (indices) ; '
         'n_cyc compared to 1e-12; non-trivial = series has at least one interior turning point or a plateau')
 TRUSTED = [
     'Coq 8.16.1 kernel + vm_compute',
@@ -62,11 +62,11 @@ def run(rep, rng, tier):
         cl.append(Case('(%s, %s, %s)' % (qlist(xs), qlist(cv), natlist(nzi)), {'function': site, 'args': args, 'impl': [cv, nzi]}, site,
                        nontrivial=nontrivial(xs), klass=site + '/pipeline'))
 
-    def add_peaks(xs, pt, exact_int=True, store=float):
+    def add_peaks(xs, pt, exact_int=True, store=float, tag=''):
         # store: the numpy dtype the caller keeps the record in (raw digitiser counts are int16/int32): same numbers, same peaks
         r = core.guarded_pure(get_peak_array_indices, np.array(xs, dtype=store), ptype=PT[pt])
         args = {'values': list(map(float, xs)), 'ptype': PT[pt]}
-        site = 'get_peak_array_indices[%s]' % PT[pt]
+        site = 'get_peak_array_indices[%s]%s' % (PT[pt], tag)
         if store is not float:
             site += '[%s record]' % np.dtype(store).name
             args['stored_as'] = np.dtype(store).name
@@ -81,10 +81,20 @@ def run(rep, rng, tier):
             pkq.append(Case('(%d%%nat, %s, %s)' % (pt, qlist(xs), natlist(out)), {'function': site, 'args': args, 'impl': out}, site,
                             nontrivial=nontrivial(xs), klass=site + '/real'))
 
-    def add_ncyc(xs, opt, start):
-        r = core.guarded_pure(get_n_cyc_array, np.array(xs, dtype=float), opt=opt, start=start)
+    def add_ncyc(xs, opt, start, store=float):
+        # store: how the caller holds the series (integer ndarray of raw counts, plain list of Python ints): same numbers, same counter
         site = 'get_n_cyc_array[%s,%s]' % (opt, start)
         args = {'values': list(map(float, xs)), 'opt': opt, 'start': start}
+        if store is list:
+            arg = [int(v) for v in xs]
+            site += '[list of Python ints]'
+            args['stored_as'] = 'list of int'
+        else:
+            arg = np.array(xs, dtype=store)
+            if store is not float:
+                site += '[%s record]' % np.dtype(store).name
+                args['stored_as'] = np.dtype(store).name
+        r = core.guarded_pure(get_n_cyc_array, arg, opt=opt, start=start)
         if isinstance(r, ImplError):
             rep.violation(site, {'function': site, 'args': args, 'impl_error': str(r)})
             return
@@ -143,6 +153,22 @@ def run(rep, rng, tier):
         if len(set(xs)) == 1:
             continue
         add_peaks(xs, k % 3, store=store)
+    # the cycle counter of series held as integers (int16 / int64 ndarray, list of Python ints): it still rises by 0.5 between
+    # consecutive peaks and by 0.25 up to the first one
+    for k in range(36 if tier == 'quick' else 360):
+        store = [np.int16, np.int64, list][k % 3]
+        n = gens.small_len(rng, 3, 60)
+        xs = gens.plateau_series(rng, n, levels=rng.choice([2, 5, 40]), p_flat=rng.choice([0.2, 0.5]), offset=rng.choice([0, 0, 3, -4]))
+        add_ncyc(xs, 'all' if k % 4 else 'switched', ['origin', 'peak'][(k // 3) % 2], store=store)
+    # first sample 2^55..2^60 times the unit of the later oscillation (a free vibration released from a large initial value and
+    # recorded until it has died away; a large constant level stepped away from): the peaks are those of the numbers as given
+    for k in range(45 if tier == 'quick' else 450):
+        n = gens.small_len(rng, 4, 60)
+        tail = gens.plateau_series(rng, n, levels=rng.choice([2, 5, 50]), p_flat=rng.choice([0.1, 0.4]), offset=rng.choice([0, 0, 7, -3]))
+        first = rng.choice([-1, 1]) * 2.0 ** rng.choice([55, 57, 60, 60])
+        unit = 2.0 ** rng.choice([0, 0, -60, -70, 10])
+        xs = [first * unit] * rng.choice([1, 1, 2]) + [v * unit for v in tail]
+        add_peaks(xs, k % 3, exact_int=False, tag='[first sample >= 2^55 times the later oscillation]')
     rep.extra['exhaustive'] = True
     rep.extra['exhaustive_space'] = 'non-constant series over {-2..2}, length 2..%d (ptype all); ..%d (max/min); ..%d (n_cyc)' % (L, L - 1, L - 2)
     rep.correspond('model.K_peaks', 'chk_peaks', pk, max_cases=4000)
